@@ -202,9 +202,14 @@ class SList:
             return
         items = list(self.items)
 
+        if not items:
+            from vt.e1.symexec import sym_elem_fn
+            if self.kind == 'any':
+                raise Unsupported('element of an empty list of unknown element type')
+            self.fn, self.length, self.items = sym_elem_fn(self.kind, None), 0, None
+            return
+
         def f(idx, items=items):
-            if not items:
-                raise Unsupported('element of an empty list')
             res = items[-1]
             for k in range(len(items) - 2, -1, -1):
                 res = val_ite(idx == k, items[k], res)
